@@ -28,8 +28,10 @@ THEOREMS = {
     'C20_other_lines_ignored': 'every other line is ignored: deleting (or inserting) lines that are not one of the four commands changes neither citations, style, data, fatal error nor kind and file of any report (only line numbers shift)',
     'C20_reports_spec': 'the reports are exactly those of the specification, in order: nothing else is reported',
     'C20_duplicates_reported': 'a second \\bibstyle or \\bibdata is reported with the file and line of that line; the first value is kept',
-    'C20_case_mismatch_reported': 'a key cited in a spelling different from its most recent citation is reported with the file and line of the citing line',
-    'C20_context_after_input': 'reports made after returning from nested files carry the outer file and the right line number and text',
+    'C20_case_mismatch_reported': 'a key cited in a spelling different from its MOST RECENT citation (same key up to str.lower) is reported with the file and line of the citing line. This is what the code checks and DIFFERS from the property wording "a key cited in two different spellings": the citations a, A, a give TWO reports, a, A, A one; the two readings agree on WHETHER a key is reported (C20_two_spellings_reported)',
+    'C20_two_spellings_reported': 'bridge to the property wording, every closed document: a key that occurs among the citations in two different spellings (equal up to str.lower, different strings; same line, other line, other file) gets AT LEAST ONE case-mismatch report; conversely every case-mismatch report names two different spellings of one key, both cited. The NUMBER of reports follows the most-recent-spelling reading (a, A, a: 2; a, A, A: 1; a, A, a, A: 3)',
+    'C20_context_after_input': 'first half [content]: whatever problem line |l1|+1 of the top file causes, given all events read before it incl. the complete nested files, is among the captured reports (needs closedDepth, fuel >= depth). Second half [model wiring]: "file = p, line number |l1|+1, text strip(l)" unfolds reportsOf / located on the event supplied in the hypothesis; the location claim for ALL reports is C20_reports_located',
+    'C20_reports_located': 'EVERY report of a closed document, at any nesting depth, before or after an \\@input: r.file is a file of the file system, r.lineno = n >= 1 is an existing line of it, r.line is that line stripped, and that line is a \\citation line listing the reported key / a \\bibstyle line / a \\bibdata line according to the kind of the report (stated against the file system, not against events or the context stack)',
     'C20_missing_fatal': 'a document without \\bibdata, or without \\bibstyle, is a fatal error (raised, not reported); with both it parses',
     'C20_terminates_acyclic': 'fuel >= inclusion depth suffices: for acyclic inclusion the parse never runs out of fuel and its result does not depend on the fuel; a topological order of the files bounds the depth by the number of files + 1',
     'C20_no_internal_error': 'on every file system, cyclic or not, the parser never dereferences a missing context (no AttributeError) and returns with a context set',
@@ -880,5 +882,8 @@ LEVEL_NOTE = ('Trusted: Lean kernel; axioms propext/Classical.choice/Quot.sound 
               'to pybtex/auxfile.py only as far as the differential check explores; the `re` engine on the one pattern (checked exhaustively '
               'on token strings of length <=5), text-mode line iteration, str.split/str.strip, the OS file API and the missing-file error text are '
               'modelled or assumed, not verified; str.lower is the regenerated whole-string model lowerPy (incl. final sigma and U+0130); decoding is done by the harness (the model sees decoded lines), undecodable bytes are outside the property. Inclusion cycles are outside the property (Python recurses '
-              'until it fails; the model reports out-of-fuel). Only the capture-mode reporting channel is modelled (modes are C16). '
+              'until it fails; the model reports out-of-fuel). Only the capture-mode reporting channel is modelled (modes are C16; C16 leaves mode independence of the .aux reader to the correspondence). '
+              'Case mismatches are reported against the MOST RECENT spelling (what the code does), which differs in the number of reports from the property wording "cited in two different spellings" '
+              '(a, A, a: two reports); C20_two_spellings_reported proves the two readings agree on whether a key is reported at all. The domain predicates closedDepth / depthOk of the main theorems are defined '
+              'with the model matcher (inputsOf -> matchCommand), relative to which C20_command_shape proves the classification equal to Spec.classify (argOf characterised separately by argOf_shape). '
               'The model follows AuxDataError as repaired by proposed_fixes/C20-1.diff + C20-2.diff.')
